@@ -43,6 +43,7 @@ From ASModel Require Import Base State Orderings_gen Step Run Progress Hist Loca
 From ASModel Require Import GenDefs Gen1 Gen2 Gen EnvDefs Env4 Env AccDefs Acc1 Acc2 Acc3 Acc4 Acc5 Acc6 Acc7 Acc.
 From ASModel Require Import ProtDefs Prot1 Prot11 Prot16 Prot Typed LinDefs Lin2 Lin Safe1 Safe2 Safe7 Safe8 Safe Main GenLen ProgWF1 ProgWF RunOKEx.
 From ASModel Require Import Stale StaleInv.
+From ASModel Require Import Stale2 Stale2Inv.
 
 Theorem C01_dec : forall s a,
   match heap s a with
@@ -193,3 +194,29 @@ Proof. exact RunOKS_example. Qed.
 
 Print Assumptions C01_no_use_after_free_stale.
 Print Assumptions C01_stale_scope_inhabited.
+
+(** ** Every load of the read path and of [Node::get] that is not SeqCst may be stale.
+
+    [Stale2.step_stale2] is [step] except that FOUR loads may be answered with a value the schedule
+    supplies (choice [x >= 2] means value [x - 2]): the Relaxed first read of the fast path ([LA1]),
+    the Relaxed slot scan of `get_debt` ([LAscan]: the owner still sees a debt a writer has paid -
+    the slot is skipped), the Acquire look at `in_use` in `check_cooldown` ([GCool1]: any earlier
+    state; the CAS decides) and the Relaxed head read before the push loop ([GPush0]: an older head;
+    the CAS decides).  [RunOKS2] is [RunOK] for such runs plus [Stale2.stale2_ok] (the first read is
+    not null, the stale head is not above the current one). *)
+Theorem C01_no_use_after_free_stale2 cf inits progs sched :
+  RunOKS2 cf inits progs sched ->
+  NoFault (run_state_stale2 cf (init_state inits progs) sched) /\
+  forall te, In te (snd (run_stale2 cf (init_state inits progs) sched)) ->
+    forall a, ~ In (EvFault (FDeadInc a)) (snd te) /\ ~ In (EvFault (FDeadDec a)) (snd te).
+Proof. exact (Stale2Inv8.C01_no_use_after_free_stale2 cf inits progs sched). Qed.
+
+(** Non-vacuity: two concrete runs.  In the first a writer's look at `in_use` and its head read are
+    stale and the reader's ninth load skips a slot that was paid long ago; in the second all eight
+    scans are stale and the reader enters the fallback. *)
+Theorem C01_stale2_scope_inhabited :
+  RunOKS2 sx2_cf sx2_inits sx2_progs sx2_sched /\ RunOKS2 sy2_cf sx2_inits sx2_progs sy2_sched.
+Proof. exact (conj RunOKS2_example RunOKS2_example_y). Qed.
+
+Print Assumptions C01_no_use_after_free_stale2.
+Print Assumptions C01_stale2_scope_inhabited.
